@@ -248,6 +248,15 @@ def gen(repo):
     guards.append(("udp_export_tmp_created_truncating",
                    re.search(r"File::create\(\s*config\s*\.scrape_exports\s*\.tmp_path\(\)\s*\)", udp_swarm) is not None,
                    "crates/udp/src/swarm.rs clean_and_update_statistics (File::create(tmp_path))"))
+    # udp socket workers: cadence of the clock refresh (connection-id clock and peer deadline sample):
+    # mio every N-th poll iteration, io_uring on a pulse timer of S seconds
+    mio_mod = strip_comments(read(repo, "crates/udp/src/workers/socket/mio/mod.rs"))
+    m = re.search(r"if\s+iter_counter\s*%\s*(\d+)\s*==\s*0\s*\{\s*shared\.validator\.update_elapsed\(\)", mio_mod)
+    out.append("(* crates/udp/src/workers/socket/mio/mod.rs: clock refresh every N poll iterations (0: pattern gone) *)")
+    out.append("Definition udp_mio_clock_refresh_polls : N := %d%%N." % (int(m.group(1)) if m else 0))
+    m = re.search(r"pulse_timeout_sqe\s*=\s*\{\s*let\s+timespec_ptr\s*=\s*Box::into_raw\(Box::new\(Timespec::new\(\)\.sec\((\d+)\)\)\)", uring)
+    out.append("(* crates/udp/src/workers/socket/uring/mod.rs: pulse timer of the clock refresh, seconds (0: pattern gone) *)")
+    out.append("Definition udp_uring_clock_pulse_secs : N := %d%%N." % (int(m.group(1)) if m else 0))
     # http swarm worker: how often the shared peer_valid_until sample is refreshed (seconds; 0 = not a
     # literal constant any more)
     http_swarm_mod = strip_comments(read(repo, "crates/http/src/workers/swarm/mod.rs"))
